@@ -2,3 +2,4 @@
 import SPModel.Basic
 import SPModel.Card
 import SPModel.Logic
+import SPModel.Comb
